@@ -43,7 +43,13 @@ def sig_detail(name, scen_events, at):
             size[p["job"]] = size.get(p["job"], 0) + 1
         jobs = {sc["pods"][e["p"] - 1]["job"] for e in ev} | {e["pre"] for e in ev if e.get("pre")}
         gang = 1 if any(size.get(j, 0) > 1 for j in jobs) else 0
-        return "evictions=%s moved=%d gang=%d" % ("+".join(acts), moved, gang)
+        # sizes: do the jobs involved in the evictions (victims and the jobs they were evicted for) all ask for the
+        # same amount of GPU? (mixed: a bigger victim is evicted for a smaller claimant, the freed rest goes elsewhere)
+        req = {}
+        for p in sc["pods"]:
+            req[p["job"]] = req.get(p["job"], 0) + (p["gpu"] * 100 if p["devs"] == 0 else p["devs"] * (p["frac"] or 1))
+        sizes = "uniform" if len({req.get(j, 0) for j in jobs}) <= 1 else "mixed"
+        return "evictions=%s moved=%d gang=%d sizes=%s" % ("+".join(acts), moved, gang, sizes)
     return ""
 
 
